@@ -1117,6 +1117,8 @@ func cmdRun(args []string) {
 	}
 }
 
+var certSerialRe = regexp.MustCompile(`\.hapsim#[0-9]+|hapsim-ca#[0-9]+`)
+
 // selftest-determinism: every seed twice per GOMAXPROCS setting; trace signatures and verdicts must agree.
 func cmdDeterminism(args []string) {
 	fl := flag.NewFlagSet("det", flag.ExitOnError)
@@ -1151,7 +1153,8 @@ func cmdDeterminism(args []string) {
 						// of these log lines depends on it (handlers are driven by SimKube, kind by kind)
 						continue
 					}
-					h.Write([]byte(l))
+					// (certificates are generated once per process: their serial numbers, which witnesses quote, differ between processes)
+					h.Write([]byte(certSerialRe.ReplaceAllString(l, "#N")))
 					h.Write([]byte{'\n'})
 				}
 				fmt.Fprintf(h, "%s %v", r.Verdict, r.Probes)
